@@ -414,6 +414,21 @@ def run(prog, rep, tier='quick', config='default'):
                 rep.ok('R11j', 'cells-written-unchanged', fn=f0.name,
                        detail='header, rows and footer reach write_record without any string-transforming call (%d functions/closures followed)' % n_fn)
 
+    # ------------------------------------------------------------------ R11k: reader and writers speak the default CSV dialect
+    DIALECT = re.compile(r'^csv::(ReaderBuilder|WriterBuilder)::(escape|delimiter|quote|double_quote|quoting|quote_style|comment|terminator|trim|ascii)$')
+    builders = [(f, c) for f in prog.product_fns() if not mir.is_testsupport(f.name) for c in f.calls if re.match(r'^csv::(ReaderBuilder|WriterBuilder)::', c.callee)]
+    setters = [(f, c) for (f, c) in builders if DIALECT.search(c.callee)]
+    if setters:
+        f0, c0 = setters[0]
+        rep.violation('R11k', 'reader-and-writers-use-one-dialect', where=c0.where(), fn=f0.name,
+                      detail='%s changes the CSV dialect on one side only: what the writer produces (it escapes nothing, doubles quotes) is no longer '
+                             'what the reader undoes - e.g. with an escape byte a backslash inside a quoted memo is swallowed' % short(c0.callee))
+    elif len(builders) >= 4:
+        rep.ok('R11k', 'reader-and-writers-use-one-dialect', fn='(all product crates)',
+               detail='%d csv builder calls, none of them a dialect setter (escape / delimiter / quote / double_quote / quoting / terminator / trim / comment)' % len(builders))
+    else:
+        rep.violation('R11k', 'anchor-lost:csv-builders', detail='anchor lost: only %d csv::ReaderBuilder / WriterBuilder calls found' % len(builders))
+
     # ------------------------------------------------------------------ R11f
     n = 0
     for fn in prog.product_fns():
